@@ -97,17 +97,31 @@ def r1_r5(ctx):
     if ge is None:
         return
     m = match(call('core::option::Option::<T>::map', ('field', SELF, 'en_passant'), ('closure', V('k'), V('caps'))), norm(ge.ret))
-    if m is None:
-        ctx.inconclusive('C06.R1', 'get_en_passant is not en_passant.map(closure): ' + sh(ge.ret, 200))
-        return
-    cs = ctx.an().summary(m['k'])
     FILE = ('field', ('variant', ('field', SELF, 'en_passant'), 'Some'), '0')
-    # closure(captures, file): captured self -> the receiver
-    body = norm(cs.ret)
-    body = replace(body, ('mem', ('h', ('mem', ('h', ('field', ('param', 1), '0'))))), SELF)
-    body = replace(body, ('mem', ('h', ('field', ('mem', ('p', 1)), '0'))), SELF)
-    body = replace(body, ('param', 2), FILE)
-    stored = body     # the Square get_en_passant yields when Some
+    if m is None:
+        # the same thing as an explicit `match self.en_passant { Some(f) => Some(square), None => None }`
+        EPF = ('field', SELF, 'en_passant')
+        none = ('agg', 'core::option::Option', 'None', ())
+        some_leaf, none_leaf = [], []
+        for tag, acc in ((1, some_leaf), (0, none_leaf)):
+            def decide(c_, vals, tag=tag):
+                if norm(c_) == ('discr', EPF):
+                    return tag if tag in vals else 'otherwise'
+                return None
+            acc += [l for l in tree_leaves(concretise(norm(ge.ret), decide)) if l != ('never',)]
+        mm_ = match(('agg', 'core::option::Option', 'Some', (('0', V('sq')),)), some_leaf[0]) if len(some_leaf) == 1 else None
+        if mm_ is None or none_leaf != [none]:
+            ctx.inconclusive('C06.R1', 'get_en_passant is neither en_passant.map(closure) nor a match on en_passant: ' + sh(ge.ret, 200))
+            return
+        stored = mm_['sq']
+    else:
+        cs = ctx.an().summary(m['k'])
+        # closure(captures, file): captured self -> the receiver
+        body = norm(cs.ret)
+        body = replace(body, ('mem', ('h', ('mem', ('h', ('field', ('param', 1), '0'))))), SELF)
+        body = replace(body, ('mem', ('h', ('field', ('mem', ('p', 1)), '0'))), SELF)
+        body = replace(body, ('param', 2), FILE)
+        stored = body     # the Square get_en_passant yields when Some
     gep_actual = [x for x in walk(norm(E)) if match(GEP, x) is not None][0]
     printed = replace(norm(E), ('field', ('variant', gep_actual, 'Some'), '0'), stored)
     ranks = {}
